@@ -1,0 +1,142 @@
+//go:build verif
+
+// Contracts for the vcgo verifier (see /verif/DESIGN.md). Comment-only file:
+// it declares nothing, so building with or without the tag `verif` yields the
+// same package. Each //@ block is a machine-checked specification of the named
+// function of this package; `extern` blocks are assumed contracts of
+// dependencies and `iface` blocks are interface-level contracts.
+
+package anytype
+
+// ---------------------------------------------------------------------------
+// field interface
+// ---------------------------------------------------------------------------
+
+//@ iface field.getVal pure [C05 C06 C12 C19 C10 C14 C18 C09 C13 C17]
+//@   requires isField(self) && okVal(self)
+//@   panics_iff false
+//@   ensures  getval: result == valOf(self)
+
+//@ func (*atString).getVal implements=field.getVal
+//@ func (*atBool).getVal implements=field.getVal
+//@ func (*atInt).getVal implements=field.getVal
+//@ func (*atFloat).getVal implements=field.getVal
+//@ func (*atNil).getVal implements=field.getVal
+//@ func (*list).getVal implements=field.getVal
+//@ func (*object).getVal implements=field.getVal
+
+// ---------------------------------------------------------------------------
+// value normalisation (C12)
+// ---------------------------------------------------------------------------
+
+//@ func parseVal trusted [C12 C05 C06]
+//@   requires okArg(val)
+//@   assigns  nothing
+//@   panics_iff !supp(val)
+//@   ensures  isField(result) && okVal(result) && wrapsS(result, val)
+//@   ensures  (isVSl(val) || isVMp(val)) ==> (isVList(result) ==> fresh(vlref(result))) && (isVObj(result) ==> fresh(voref(result)))
+
+// ---------------------------------------------------------------------------
+// List: identity, observers
+// ---------------------------------------------------------------------------
+
+//@ func (*list).Init inline
+//@ func (*list).Ego inline
+
+//@ func (*list).Count pure [C05 C17 C19 C09 C14 C18]
+//@   requires invL(ego)
+//@   panics_iff false
+//@   ensures  count: result == len(ego.val)
+
+//@ func (*list).Empty pure [C05]
+//@   requires invL(ego)
+//@   panics_iff false
+//@   ensures  empty: result == (len(ego.val) == 0)
+
+//@ func (*list).Get pure [C05 C12 C19 C10]
+//@   requires invL(ego)
+//@   panics_iff index < 0 || index >= len(ego.val)
+//@   ensures  get: result == valOf(ego.val[index])
+
+//@ func (*list).GetObject pure [C05 C12 C19 C10]
+//@   requires invL(ego)
+//@   panics_iff index < 0 || index >= len(ego.val) || !isVObj(ego.val[index])
+//@   ensures  get: result == valOf(ego.val[index])
+
+//@ func (*list).GetList pure [C05 C12 C19 C10]
+//@   requires invL(ego)
+//@   panics_iff index < 0 || index >= len(ego.val) || !isVList(ego.val[index])
+//@   ensures  get: result == valOf(ego.val[index])
+
+//@ func (*list).GetString pure [C05 C12]
+//@   requires invL(ego)
+//@   panics_iff index < 0 || index >= len(ego.val) || !isWStr(ego.val[index])
+//@   ensures  get: result == wstr(ego.val[index])
+
+//@ func (*list).GetBool pure [C05 C12]
+//@   requires invL(ego)
+//@   panics_iff index < 0 || index >= len(ego.val) || !isWBool(ego.val[index])
+//@   ensures  get: result == wbool(ego.val[index])
+
+//@ func (*list).GetInt pure [C05 C12]
+//@   requires invL(ego)
+//@   panics_iff index < 0 || index >= len(ego.val) || !isWInt(ego.val[index])
+//@   ensures  get: result == wint(ego.val[index])
+
+//@ func (*list).GetFloat pure [C05 C12]
+//@   requires invL(ego)
+//@   panics_iff index < 0 || index >= len(ego.val) || !isWFloat(ego.val[index])
+//@   ensures  get: result == wfloat(ego.val[index])
+
+//@ func (*list).TypeOf pure [C05 C12 C10]
+//@   requires invL(ego)
+//@   panics_iff false
+//@   ensures  kind: result == ((0 <= index && index < len(ego.val)) ? kindOf(ego.val[index]) : TUndef)
+
+//@ func (*list).Contains pure [C05 C09]
+//@   requires invL(ego)
+//@   panics_iff false
+//@   ensures  found: result == (exists k int :: 0 <= k && k < len(ego.val) && anyEq(valOf(ego.val[k]), elem))
+//@   loop 1
+//@     invariant range: 0 <= idx && idx <= len(ego.val)
+//@     invariant none-before: forall k int :: 0 <= k && k < idx ==> !anyEq(valOf(ego.val[k]), elem)
+//@     decreases len(ego.val) - idx
+
+//@ func (*list).IndexOf pure [C05 C09]
+//@   requires invL(ego)
+//@   panics_iff false
+//@   ensures  range: -1 <= result && result < len(ego.val)
+//@   ensures  first: result >= 0 ==> anyEq(valOf(ego.val[result]), elem) && (forall k int :: 0 <= k && k < result ==> !anyEq(valOf(ego.val[k]), elem))
+//@   ensures  absent: result == -1 ==> (forall k int :: 0 <= k && k < len(ego.val) ==> !anyEq(valOf(ego.val[k]), elem))
+//@   loop 1
+//@     invariant range: 0 <= idx && idx <= len(ego.val)
+//@     invariant none-before: forall k int :: 0 <= k && k < idx ==> !anyEq(valOf(ego.val[k]), elem)
+//@     decreases len(ego.val) - idx
+
+// ---------------------------------------------------------------------------
+// List: mutators
+// ---------------------------------------------------------------------------
+
+//@ func (*list).Add [C05 C12 C19 C09]
+//@   requires invL(ego)
+//@   requires args-ok: forall j int :: 0 <= j && j < len(values) ==> okArg(values[j])
+//@   let n := len(ego.val)
+//@   let m := len(values)
+//@   assigns  list(ego)
+//@   panics_iff exists j int :: 0 <= j && j < m && !supp(values[j])
+//@   on_panic single: m <= 1 ==> listsUnchanged(H0)
+//@   ensures  len: len(ego.val) == n + m
+//@   ensures  prefix: forall j int :: 0 <= j && j < n ==> ego.val[j] == old(ego.val[j])
+//@   ensures  appended: forall j int :: n <= j && j < n + m ==> wrapsS(ego.val[j], values[j-n])
+//@   ensures  fluent: result == ego.ptr [C19]
+//@   ensures  ptr-kept: ego.ptr == old(ego.ptr)
+//@   loop 1
+//@     invariant range: 0 <= idx && idx <= m
+//@     invariant len: len(ego.val) == n + idx && ego.ptr == old(ego.ptr) && invL(ego)
+//@     invariant storage: arr(ego.val) == old(arr(ego.val)) || fresh(arr(ego.val))
+//@     invariant untouched-at-start: idx == 0 ==> arr(ego.val) == old(arr(ego.val)) && cap(ego.val) == old(cap(ego.val)) && off(ego.val) == old(off(ego.val))
+//@     invariant prefix: forall j int :: 0 <= j && j < n ==> ego.val[j] == old(ego.val[j])
+//@     invariant appended: forall j int :: n <= j && j < n + idx ==> wrapsS(ego.val[j], values[j-n])
+//@     invariant args-kept: forall j int :: 0 <= j && j < m ==> values[j] == old(values[j])
+//@     invariant none-bad: forall j int :: 0 <= j && j < idx ==> supp(values[j])
+//@     decreases m - idx
